@@ -765,3 +765,258 @@ Proof.
 Qed.
 
 End Loop.
+
+(** * The served audio segment for a reference segment inside one loop *)
+
+Lemma map_clip_shift n k x y :
+  map (clip n) (rangeZ (x - k) (y - k)) = map (fun g => Z.min (g - k) (n - 1)) (rangeZ x y).
+Proof.
+  replace (x - k) with (- k + x) by ring. replace (y - k) with (- k + y) by ring.
+  rewrite <- map_rangeZ_shift, map_map. apply map_ext. intros g. unfold clip. f_equal. ring.
+Qed.
+
+Section Served.
+Variables r F a : Z.
+Hypothesis Hr : 0 < r.
+Hypothesis HF : 0 < F.
+Hypothesis HF32 : F < two32.
+Hypothesis Ha : 0 < a.
+Notation f := (fb r F a).
+Notation c := (fidx r F a).
+
+(** hypotheses shared by the two theorems: audio table, reference segment [[w*D+s', w*D+e')] inside
+    loop [w] of a reference loop of duration [D], ranges of the Go types *)
+Record served_pre (segs : list seg) (D w s' e' : Z) : Prop := {
+  sp_wf : awf F segs;
+  sp_n32 : tot segs < two32;
+  sp_l63 : tot segs * F < two63;
+  sp_D : 0 < D;
+  sp_w : 0 <= w;
+  sp_s : 0 <= s';
+  sp_se : s' <= e';
+  sp_e : e' <= D;
+  sp_sD : s' < D;
+  sp_range : (w * D + D) * a + 2 * F * r < two64;
+  (* the audio table reaches the start of the output segment *)
+  sp_reach : c (w * D + s') - c (w * D) < tot segs;
+  sp_b32 : c (w * D + e') - c (w * D) < two32
+}.
+
+(** the input interval of the output segment, in media time of the VoD audio *)
+Definition in_start (D w s' : Z) : Z := f (w * D + s') - f (w * D).
+Definition in_end (D w e' : Z) : Z := f (w * D + e') - f (w * D).
+Definition not_inner (segs : list seg) (D w s' e' : Z) : Prop :=
+  inner segs (in_start D w s') (in_end D w e') = false.
+
+Lemma served_frames nr segs D w s' e' :
+  served_pre segs D w s' e' -> not_inner segs D w s' e' ->
+  audio_segment nr (w * D + s') (w * D + e') D r F a segs =
+  Ok {| o_tfdt := f (w * D + s'); o_seq := nr;
+        o_frames := map (fun g => Z.min (g - c (w * D)) (tot segs - 1))
+                        (rangeZ (c (w * D + s')) (c (w * D + e'))) |}.
+Proof.
+  intros [] Hni. unfold audio_segment.
+  rewrite (recipe_in_wrap r F a Hr HF Ha nr D w s' e') by assumption. cbn [bind].
+  assert (HwD : 0 <= w * D) by nia.
+  pose proof (fidx_mono r F a Hr HF Ha (w * D) (w * D + s') ltac:(lia)).
+  pose proof (fidx_mono r F a Hr HF Ha (w * D + s') (w * D + e') ltac:(lia)).
+  rewrite (create_audio_seg_ok F HF HF32 segs _ (c (w * D + s') - c (w * D)) (c (w * D + e') - c (w * D)));
+    cbn [r_start r_end r_nr r_inStart r_inEnd r_after]; try assumption; try lia; try (unfold fb; ring).
+  - now rewrite map_clip_shift.
+  - unfold not_inner, in_start, in_end, fb in Hni.
+    replace ((c (w * D + s') - c (w * D)) * F) with (c (w * D + s') * F - c (w * D) * F) by ring.
+    replace ((c (w * D + e') - c (w * D)) * F) with (c (w * D + e') * F - c (w * D) * F) by ring.
+    exact Hni.
+Qed.
+
+Lemma served_inner_fails nr segs D w s' e' :
+  served_pre segs D w s' e' -> ~ not_inner segs D w s' e' ->
+  audio_segment nr (w * D + s') (w * D + e') D r F a segs = Err "audioLeft != audioInEndAfterWrap".
+Proof.
+  intros [] Hni. unfold audio_segment.
+  rewrite (recipe_in_wrap r F a Hr HF Ha nr D w s' e') by assumption. cbn [bind].
+  assert (HwD : 0 <= w * D) by nia.
+  pose proof (fidx_mono r F a Hr HF Ha (w * D) (w * D + s') ltac:(lia)).
+  pose proof (fidx_mono r F a Hr HF Ha (w * D + s') (w * D + e') ltac:(lia)).
+  apply (create_audio_seg_inner F HF HF32 segs _ (c (w * D + s') - c (w * D)) (c (w * D + e') - c (w * D)));
+    cbn [r_start r_end r_nr r_inStart r_inEnd r_after]; try assumption; try lia; try (unfold fb; ring).
+  unfold not_inner, in_start, in_end, fb in Hni.
+  replace ((c (w * D + s') - c (w * D)) * F) with (c (w * D + s') * F - c (w * D) * F) by ring.
+  replace ((c (w * D + e') - c (w * D)) * F) with (c (w * D + e') * F - c (w * D) * F) by ring.
+  destruct (inner segs _ _); [reflexivity|congruence].
+Qed.
+
+End Served.
+
+(** * The audio SegmentTimeline derived from the reference timeline *)
+
+(** expansion of [<S t d r>] elements to (start, duration) pairs; an element without [t] continues
+    at the running time *)
+Fixpoint rep_entries (t d : Z) (n : nat) : list (Z * Z) :=
+  match n with O => [] | S k => (t, d) :: rep_entries (t + d) d k end.
+
+Definition entry_start (t : Z) (s : sentry) : Z := match e_t s with Some x => x | None => t end.
+Definition entry_end (t : Z) (s : sentry) : Z := entry_start t s + (e_r s + 1) * e_d s.
+
+Fixpoint expand_s (t : Z) (l : list sentry) : list (Z * Z) :=
+  match l with
+  | [] => []
+  | s :: rest => rep_entries (entry_start t s) (e_d s) (Z.to_nat (e_r s + 1)) ++ expand_s (entry_end t s) rest
+  end.
+
+Fixpoint end_s (t : Z) (l : list sentry) : Z :=
+  match l with [] => t | s :: rest => end_s (entry_end t s) rest end.
+
+(** the reference side: entries (d, r) from [t] on *)
+Fixpoint expand_ref (t : Z) (l : list (Z * Z)) : list (Z * Z) :=
+  match l with
+  | [] => []
+  | (d, rr) :: rest => rep_entries t d (Z.to_nat (rr + 1)) ++ expand_ref (t + Z.of_nat (Z.to_nat (rr + 1)) * d) rest
+  end.
+
+Fixpoint end_ref (t : Z) (l : list (Z * Z)) : Z :=
+  match l with [] => t | (d, rr) :: rest => end_ref (t + Z.of_nat (Z.to_nat (rr + 1)) * d) rest end.
+
+Lemma expand_s_app t l1 l2 : expand_s t (l1 ++ l2) = expand_s t l1 ++ expand_s (end_s t l1) l2.
+Proof.
+  revert t; induction l1 as [|s l1 IH]; intros t; cbn [app expand_s end_s]; [reflexivity|].
+  now rewrite IH, app_assoc.
+Qed.
+
+Lemma end_s_app t l1 l2 : end_s t (l1 ++ l2) = end_s (end_s t l1) l2.
+Proof. revert t; induction l1 as [|s l1 IH]; intros t; cbn [app end_s]; [reflexivity|apply IH]. Qed.
+
+Lemma rep_entries_snoc t d n : rep_entries t d (S n) = rep_entries t d n ++ [(t + Z.of_nat n * d, d)].
+Proof.
+  revert t; induction n as [|n IH]; intros t.
+  - cbn [rep_entries app]. f_equal. f_equal. lia.
+  - change (rep_entries t d (S (S n))) with ((t, d) :: rep_entries (t + d) d (S n)).
+    rewrite IH. cbn [rep_entries app]. f_equal. f_equal. f_equal. f_equal. lia.
+Qed.
+
+Lemma end_ref_mono l : forall T1, Forall (fun e : Z * Z => 0 <= fst e) l -> T1 <= end_ref T1 l.
+Proof.
+  induction l as [|[d' r'] l IHl]; intros T1 Hl; cbn [end_ref]; [lia|].
+  pose proof (Forall_inv Hl) as H1. pose proof (Forall_inv_tail Hl) as H2. cbn [fst] in H1.
+  specialize (IHl (T1 + Z.of_nat (Z.to_nat (r' + 1)) * d') H2). nia.
+Qed.
+
+Section Timeline.
+Variables r F a : Z.
+Hypothesis Hr : 0 < r.
+Hypothesis HF : 0 < F.
+Hypothesis Ha : 0 < a.
+Notation f := (fb r F a).
+
+Definition image (p : Z * Z) : Z * Z := let '(t, d) := p in (f t, f (t + d) - f t).
+
+(** state invariant of the two loops: the entries produced so far (reversed in [acc]) expand to the
+    images [P] of the reference entries seen so far; [t] is the running audio time *)
+Definition tl_inv (t : Z) (acc : list sentry) (P : list (Z * Z)) : Prop :=
+  match acc with
+  | [] => P = []
+  | _ => expand_s 0 (rev acc) = P /\ end_s 0 (rev acc) = t /\ Forall (fun s => 0 <= e_r s) acc
+  end.
+
+Lemma tl_push t d acc P :
+  tl_inv t acc P ->
+  tl_inv (t + d)
+    (match acc with
+     | [] => [{| e_t := Some t; e_d := d; e_r := 0 |}]
+     | s :: tl => if negb (e_d s =? d) then {| e_t := None; e_d := d; e_r := 0 |} :: acc
+                  else {| e_t := e_t s; e_d := e_d s; e_r := e_r s + 1 |} :: tl
+     end) (P ++ [(t, d)]).
+Proof.
+  unfold tl_inv. destruct acc as [|s tl].
+  - intros ->. cbn [rev app expand_s end_s]. unfold entry_end, entry_start. cbn [e_t e_d e_r].
+    change (Z.to_nat (0 + 1)) with 1%nat. cbn [rep_entries app]. repeat split; [lia|].
+    repeat constructor. cbn [e_r]. lia.
+  - intros (E1 & E2 & E3). destruct (negb (e_d s =? d)) eqn:C.
+    + cbn [rev]. cbn [rev] in E1, E2.
+      rewrite (expand_s_app 0 (rev tl ++ [s])), (end_s_app 0 (rev tl ++ [s])), E1, E2.
+      cbn [expand_s end_s]. unfold entry_end, entry_start. cbn [e_t e_d e_r]. split; [|split].
+      * change (Z.to_nat (0 + 1)) with 1%nat. cbn [rep_entries app]. reflexivity.
+      * lia.
+      * constructor; [cbn; lia|assumption].
+    + assert (e_d s = d) by lia. subst d.
+      pose proof (Forall_inv E3) as Hs. pose proof (Forall_inv_tail E3) as Htl. cbn beta in Hs.
+      cbn [rev] in *.
+      rewrite (expand_s_app 0 (rev tl)) in E1. rewrite (end_s_app 0 (rev tl)) in E2.
+      rewrite (expand_s_app 0 (rev tl)), (end_s_app 0 (rev tl)).
+      cbn [expand_s end_s] in *. rewrite app_nil_r in *.
+      set (t0 := end_s 0 (rev tl)) in *.
+      unfold entry_end, entry_start in *. cbn [e_t e_d e_r] in *.
+      set (t1 := match e_t s with Some x => x | None => t0 end) in *.
+      replace (Z.to_nat (e_r s + 1 + 1)) with (S (Z.to_nat (e_r s + 1))) by lia.
+      rewrite rep_entries_snoc, app_assoc, E1. split; [|split].
+      * f_equal. f_equal. f_equal. lia.
+      * lia.
+      * constructor; [cbn [e_r]; lia|assumption].
+Qed.
+
+Lemma tl_inner_ok n refD : forall T t acc P,
+  0 <= refD -> 0 <= T -> (T + Z.of_nat n * refD) * a + F * r < two64 ->
+  t = f T -> tl_inv t acc P ->
+  exists acc',
+    tl_inner n refD r F a (T, t, acc) = Ok (T + Z.of_nat n * refD, f (T + Z.of_nat n * refD), acc')
+    /\ tl_inv (f (T + Z.of_nat n * refD)) acc' (P ++ map image (rep_entries T refD n)).
+Proof.
+  induction n as [|n IH]; intros T t acc P Hd HT Hrange Et Hinv.
+  - cbn [tl_inner rep_entries map Z.of_nat]. rewrite app_nil_r. replace (T + 0 * refD) with T by ring.
+    subst t. eauto.
+  - cbn [tl_inner].
+    assert (Hstep : 0 <= T + refD <= T + Z.of_nat (S n) * refD) by nia.
+    assert (HX : (T + refD) * a + F * r < two64) by nia.
+    rewrite (u64_small (T + refD)) by (unfold two64 in *; nia).
+    rewrite (calc_is_fb r F a Hr HF Ha (T + refD)) by lia. cbn [bind].
+    pose proof (fb_mono r F a Hr HF Ha T (T + refD) ltac:(lia)) as M.
+    pose proof (fb_nonneg r F a Hr HF Ha T HT) as N0.
+    pose proof (fb_le_bound r F a Hr HF Ha (T + refD) ltac:(lia)) as B1.
+    subst t. rewrite (u64_small (f (T + refD) - f T)) by lia.
+    pose proof (tl_push (f T) (f (T + refD) - f T) acc P Hinv) as Hp.
+    replace (f T + (f (T + refD) - f T)) with (f (T + refD)) in Hp by ring.
+    destruct (IH (T + refD) (f (T + refD)) _ _ Hd ltac:(lia) ltac:(nia) eq_refl Hp) as (acc' & E1 & E2).
+    exists acc'. replace (T + Z.of_nat (S n) * refD) with (T + refD + Z.of_nat n * refD) by lia.
+    split; [exact E1|]. cbn [rep_entries map image]. rewrite <- app_assoc in E2. exact E2.
+Qed.
+
+Lemma tl_outer_ok entries : forall T t acc P,
+  Forall (fun e => 0 <= fst e) entries -> 0 <= T -> end_ref T entries * a + F * r < two64 ->
+  t = f T -> tl_inv t acc P ->
+  exists acc',
+    tl_outer entries r F a (T, t, acc) = Ok (end_ref T entries, f (end_ref T entries), acc')
+    /\ tl_inv (f (end_ref T entries)) acc' (P ++ map image (expand_ref T entries)).
+Proof.
+  induction entries as [|[d rr] rest IH]; intros T t acc P Hd HT Hrange Et Hinv.
+  - cbn [tl_outer expand_ref end_ref map]. rewrite app_nil_r. subst t. eauto.
+  - cbn [tl_outer expand_ref end_ref] in *. pose proof (Forall_inv Hd) as Hd1. pose proof (Forall_inv_tail Hd) as Hd2.
+    cbn [fst] in Hd1. subst t.
+    set (n := Z.to_nat (rr + 1)) in *.
+    pose proof (end_ref_mono rest (T + Z.of_nat n * d) Hd2) as Hm.
+    destruct (tl_inner_ok n d T (f T) acc P Hd1 HT ltac:(nia) eq_refl Hinv) as (acc1 & E1 & E2).
+    rewrite E1. cbn [bind].
+    destruct (IH (T + Z.of_nat n * d) (f (T + Z.of_nat n * d)) acc1 _ Hd2 ltac:(nia) Hrange eq_refl E2) as (acc2 & E3 & E4).
+    exists acc2. split; [exact E3|]. rewrite map_app, app_assoc. exact E4.
+Qed.
+
+(** [generateTimelineEntriesFromRef]: the produced [<S>] elements expand to exactly the frame-aligned
+    images of the reference entries: start [f T_k], duration [f T_(k+1) - f T_k]. *)
+Lemma audio_timeline_ok startNr refT entries :
+  0 <= startNr -> entries <> [] -> Forall (fun e => 0 <= fst e) entries -> 0 <= refT ->
+  end_ref refT entries * a + F * r < two64 ->
+  exists l, audio_timeline startNr refT entries r F a = Ok l
+            /\ expand_s 0 l = map image (expand_ref refT entries).
+Proof.
+  intros Hs Hne Hd HT Hrange. unfold audio_timeline.
+  replace (startNr <? 0) with false by lia.
+  destruct entries as [|e0 rest] eqn:Ee; [congruence|]. cbn [is_nil]. rewrite <- Ee in *.
+  pose proof (end_ref_mono entries refT Hd).
+  rewrite (calc_is_fb r F a Hr HF Ha refT) by nia. cbn [bind].
+  destruct (tl_outer_ok entries refT (f refT) [] [] Hd HT Hrange eq_refl eq_refl) as (acc & E1 & E2).
+  rewrite E1. cbn [bind]. exists (rev acc). split; [reflexivity|].
+  cbn [app] in E2. unfold tl_inv in E2. destruct acc as [|s tl].
+  - cbn [rev expand_s]. now rewrite E2.
+  - tauto.
+Qed.
+
+End Timeline.
